@@ -243,6 +243,90 @@ def coap_step(M, op):
     return h
 
 
+POST_OUTCOMES = ["response", "network-error", "timeout", "cancelled", "not-found-then-garbage"]
+
+
+def coap_post(M):
+    """EncryptionContext.post_bytes: whatever happens to the exchange, the nonce it used is never available again"""
+    def h(ex):
+        import asyncio
+        sym = is_sym(ex)
+        r0, s0, e0 = ex.fresh_int("recv0", 0, BIG), ex.fresh_int("send0", 0, BIG), ex.fresh_int("event0", 0, BIG)
+        ctx, keys, mk, log = coap_ctx(ex, M, r0, s0, e0)
+        outcome = ex.choice("outcome", POST_OUTCOMES)
+        pt = ex.fresh_bytes("pt", 1, 32, opaque=True)
+        resp_pt = b"RESPONSE"
+        sent = []
+
+        class Msg:
+            def __init__(self, code=None, payload=b"", uri=None):
+                self.code, self.payload, self.uri = code, payload, uri
+
+        class Pending:
+            @property
+            def response(self):
+                async def r():
+                    if outcome == "network-error":
+                        raise M.coap.NetworkError("unreachable")
+                    if outcome == "timeout":
+                        raise asyncio.TimeoutError()
+                    if outcome == "cancelled":
+                        raise asyncio.CancelledError()
+                    if outcome == "not-found-then-garbage":
+                        return Msg(code=M.coap.Code.NOT_FOUND, payload=World.get().term(("forged", 1), 24) if sym else b"g" * 24)
+                    ct = mk(keys["recv"]).encrypt(B(ex, nonce(r0)), resp_pt, b"")
+                    return Msg(code=M.coap.Code.CHANGED, payload=ct if sym else bytes(ct))
+                return r()
+
+        class CoapCtx:
+            def request(self, msg):
+                sent.append(msg.payload)
+                return Pending()
+
+            async def shutdown(self):
+                log["shutdown"] = True
+
+        class NoTimeout:
+            def __init__(self, t):
+                pass
+
+            async def __aenter__(self):
+                return self
+
+            async def __aexit__(self, *a):
+                return False
+
+        ctx.coap_ctx = CoapCtx()
+        saved = (M.coap.Message, M.coap.asyncio_timeout)
+        M.coap.Message, M.coap.asyncio_timeout = Msg, NoTimeout
+        try:
+            try:
+                out = drive(ctx.post_bytes(B(ex, pt)))
+                end = "returned"
+            except asyncio.CancelledError:
+                end = "cancelled"
+            except (M.coap.AccessoryDisconnectedError, M.coap.EncryptionError) as e:
+                end = type(e).__name__
+        finally:
+            M.coap.Message, M.coap.asyncio_timeout = saved
+        ex.require(len(sent) == 1, "coap-post: exactly one request goes out")
+        if len(sent) == 1:
+            try:
+                ok = rope_eq(mk(keys["send"]).decrypt(B(ex, nonce(s0)), sent[0], b""), pt)
+            except InvalidTag:
+                ok = False
+            ex.require(ok, "coap-post: the request is sealed with the current send counter")
+        dead = ctx.coap_ctx is None
+        ex.require(dead or ctx.send_ctr >= s0 + 1, "coap-post: after an exchange that was cut short (cancelled, timed out, failed) the used nonce is never handed out again")
+        if outcome == "response":
+            ex.tag("completed")
+            ex.require(end == "returned" and rope_eq(out, resp_pt) and ctx.recv_ctr == r0 + 1 and ctx.send_ctr == s0 + 1, "coap-post: a completed exchange advances both counters once")
+        elif outcome == "cancelled":
+            ex.tag("cancelled")
+        return ex.observe([end, dead])
+    return h
+
+
 def build(tier, mutate=None):
     C = copies(mutate)
     R = reals()
@@ -255,6 +339,17 @@ def build(tier, mutate=None):
         units.append(Unit("coap/%s-step" % op, coap_step(C, op), coap_step(R, op),
                           bounds={"recv/send/event counters": "0..2^48 each (symbolic)", "message": "genuine with any counter, or forged"},
                           regions=[] if op == "encrypt" else ["accepted", "rejected"]))
+    units.append(Unit("coap/post_bytes-step", coap_post(C), coap_post(R), bounds={"counters": "0..2^48 (symbolic)", "exchange outcome": POST_OUTCOMES},
+                      regions=["completed", "cancelled"]))
+    # IP send step (the outbound half of C05 from an arbitrary send counter) and the BLE broadcast step (C18) complete the picture
+    from . import ble_adv as BA
+    from . import c05, c18
+    units.append(Unit("ip/send-step", c05.outbound(C.ipc, 2049), c05.outbound(R.ipc, 2049), split=True,
+                      bounds={"send_counter": "0..2^40 (symbolic)", "payload_len": "0..2049 (symbolic, up to 3 frames)"}, regions=["multi-frame"]))
+    if tier != "canary":
+        BC, BR = BA.copies(mutate), BA.reals()
+        units.append(Unit("ble/broadcast-notification-step", c18.notification_unit(BC, "uint8"), c18.notification_unit(BR, "uint8"), split=True,
+                          bounds={"see": "C18 notification-step/uint8"}, regions=["accepted", "ignored"], diff_sample=300))
     return units
 
 
